@@ -11,7 +11,7 @@ git -C /repo worktree add --detach $WT HEAD >/dev/null 2>&1 || { echo "cannot cr
 git -C $WT apply /verif/seeded/$name/patch.diff || { git -C /repo worktree remove --force $WT; exit 2; }
 SO=${SEEDOUT:-/tmp/seedout}; mkdir -p $SO/$name
 for c in $checks; do
-  cd /verif; t0=$(date +%s); VERIF_OUT=$SO/$name timeout 3000 ./check $c --tier ${TIER:-quick} --repo $WT > $SO/$name/$c.log 2>&1; rc=$?; t1=$(date +%s)
+  cd /verif; t0=$(date +%s); VERIF_OUT=$SO/$name timeout ${SEED_TIMEOUT:-3000} ./check $c --tier ${TIER:-quick} --repo $WT > $SO/$name/$c.log 2>&1; rc=$?; t1=$(date +%s)
   echo "$name $c tier=${TIER:-quick} rc=$rc time=$((t1-t0))s sigs: $(grep 'signature=' $SO/$name/$c.log | sed 's/ *signature=//' | cut -d' ' -f1 | sort -u | head -6 | tr '\n' ' ')"
 done
 git -C /repo worktree remove --force $WT
